@@ -934,6 +934,10 @@ func runC12(c *core.Ctx) core.Meta {
 		st15.Sample("%d exported Enqueue* methods, %d functions reachable from them", len(roots), len(reach))
 	}
 
+	// ---------------- R12.16 a response that was consumed counts as progress ----------------
+	st16 := c.Rule("R12.16", "the driver is woken by the arrival of a message and keeps ticking only while a tick reports progress: in its receive handlers (functions with a bool result, helpers expanded and their results followed) no `return false` is reachable after RetrieveIncoming took a message. A handler that consumes one of several responses of a command and reports no progress lets the engine run dry with the next response still queued; the command is never retired and DrainCommandQueue / LaunchKernel never return (unified multi-GPU kernels: one response per GPU)", 6)
+	checkRetrievedThenGivenUp(c, st16, "R12.16", pd, "nobody schedules another tick for a message that is already queued behind it, the engine runs out of events and the wait on the command queue never returns")
+
 	// ---------------- R12.11 what a launch reads was written earlier on its own queue ----------------
 	st11 := c.Rule("R12.11", "commands of one queue take effect in order, queues are not ordered against each other: every device address that EnqueueLaunchKernel puts into the dispatch packet or the launch command (code object, kernel arguments, packet) is the destination of an EnqueueMemCopyH2D on the same queue on every path to the launch command (must-pass on the flow graph); a launch that relies on a copy enqueued on another queue can start before that copy has completed", 3)
 	if fn := c.MustFunc("R12.11", driverPkg, "Driver.EnqueueLaunchKernel"); fn != nil {
